@@ -5,7 +5,7 @@ import (
 	"go/ast"
 	"go/token"
 	"go/types"
-	"sort"
+
 	"strings"
 
 	"golang.org/x/tools/go/ssa"
@@ -45,7 +45,7 @@ func runC14(c *Ctx) {
 	fd := c.funcDecl("pfb", "pfbReader", "Read")
 	f := c.method("pfb", "pfbReader", "Read")
 	fname := c.fname(f)
-	T := c.typeObj("pfb", "pfbReader")
+	_ = c.typeObj("pfb", "pfbReader")
 
 	// ---- state switch
 	var sw *ast.SwitchStmt
@@ -68,153 +68,7 @@ func runC14(c *Ctx) {
 			}
 		}
 	}
-	// ---- header guard over all (b0, b1)
-	var guard *ast.IfStmt
-	var bufObj types.Object
-	ast.Inspect(fd.Body, func(n ast.Node) bool {
-		ifs, ok := n.(*ast.IfStmt)
-		if !ok || guard != nil {
-			return true
-		}
-		// the guard that returns ErrInvalidPFB
-		if len(ifs.Body.List) == 1 {
-			if r, ok := ifs.Body.List[0].(*ast.ReturnStmt); ok && len(r.Results) == 2 {
-				if id, ok := r.Results[1].(*ast.Ident); ok {
-					if v, ok := info.ObjectOf(id).(*types.Var); ok && v.Parent() == v.Pkg().Scope() {
-						guard = ifs
-						ast.Inspect(ifs.Cond, func(m ast.Node) bool {
-							if ix, ok := m.(*ast.IndexExpr); ok {
-								if bid, ok := ix.X.(*ast.Ident); ok {
-									bufObj = info.ObjectOf(bid)
-								}
-							}
-							return true
-						})
-					}
-				}
-			}
-		}
-		return true
-	})
-	stateVals := map[int64]bool{}
-	if guard == nil || bufObj == nil {
-		c.fail("PFB-HEADER", fname, "header validation", fd.Pos(), "the header guard returning the invalid-PFB error was not found")
-	} else {
-		bad := ""
-		n := 0
-		for b0 := 0; b0 < 256 && bad == ""; b0++ {
-			for b1 := 0; b1 < 256; b1++ {
-				n++
-				env := &aenv{info: info, vars: map[types.Object]aval{}}
-				env.hook = func(e ast.Expr) (aval, bool) {
-					if ix, ok := e.(*ast.IndexExpr); ok {
-						if id, ok := ix.X.(*ast.Ident); ok && info.ObjectOf(id) == bufObj {
-							if k, ok := constIntOf(info, ix.Index); ok {
-								switch k {
-								case 0:
-									return aval{i: int64(b0)}, true
-								case 1:
-									return aval{i: int64(b1)}, true
-								}
-							}
-						}
-					}
-					return aval{}, false
-				}
-				v, ok := env.tryEval(guard.Cond)
-				if !ok {
-					bad = "the header guard is not a pure test of the first two bytes"
-					break
-				}
-				valid := b0 == 0x80 && b1 >= 1 && b1 <= 3
-				if v.b == valid {
-					bad = fmt.Sprintf("header bytes %#02x %#02x are %s, expected %s", b0, b1, map[bool]string{true: "rejected", false: "accepted"}[v.b], map[bool]string{true: "accepted", false: "rejected"}[valid])
-					break
-				}
-				if !v.b {
-					stateVals[int64(b1)] = true
-				}
-			}
-		}
-		c.check(bad == "", "PFB-HEADER", fname, "exactly marker 0x80 with type 1, 2 or 3 is accepted", guard.Pos(), fmt.Sprintf("%d header prefixes evaluated", n), "header validation: "+bad)
-		// identity of the error
-		r := guard.Body.List[0].(*ast.ReturnStmt)
-		id := r.Results[1].(*ast.Ident)
-		exported := c.pkg("pfb").Types.Scope().Lookup("ErrInvalidPFB")
-		c.check(exported != nil && info.ObjectOf(id) == exported, "PFB-HEADER", fname, "the invalid-PFB error is returned by identity", guard.Pos(), "return n, ErrInvalidPFB", "an invalid header does not return the package's ErrInvalidPFB value")
-	}
-	// ---- values stored into state
-	eachInstr(f, func(ins ssa.Instruction) {
-		st, ok := ins.(*ssa.Store)
-		if !ok || !isFieldAddr(st.Addr, T, c.fld("pfb.state")) {
-			return
-		}
-		if k, isC := constInt(st.Val); isC {
-			stateVals[k] = true
-		}
-	})
-	var vals []int64
-	okStates := true
-	for v := range stateVals {
-		vals = append(vals, v)
-		if labels[v] == nil {
-			okStates = false
-		}
-	}
-	sort.Slice(vals, func(i, j int) bool { return vals[i] < vals[j] })
-	c.check(okStates && len(vals) >= 4, "PFB-STATES", fname, "every value the state can take is a label of the state switch", sw.Pos(), fmt.Sprintf("state values %v ⊆ case labels", vals),
-		fmt.Sprintf("the decoder state can become one of %v but the switch has labels only for some of them: in an unlabelled state the `for len(b) > 0` loop spins forever", vals))
-	// no store of a non-constant other than the validated header byte
-	eachInstr(f, func(ins ssa.Instruction) {
-		st, ok := ins.(*ssa.Store)
-		if !ok || !isFieldAddr(st.Addr, T, c.fld("pfb.state")) {
-			return
-		}
-		if _, isC := constInt(st.Val); isC {
-			return
-		}
-		// must be int(buf[1]) dominated by the header guard
-		okHdr := false
-		if cv, ok := st.Val.(*ssa.Convert); ok {
-			if ld, ok := cv.X.(*ssa.UnOp); ok {
-				if ix, ok := ld.X.(*ssa.IndexAddr); ok {
-					if k, isC := constInt(ix.Index); isC && k == 1 {
-						okHdr = true
-					}
-				}
-			}
-		}
-		c.check(okHdr, "PFB-STATES", fname, "non-constant state comes from the validated header type byte", st.Pos(), "state = int(buf[1])", "the state is set from a value other than the validated type byte of the header")
-	})
-
-	// ---- length little endian
-	{
-		okLen := false
-		got := ""
-		ast.Inspect(fd.Body, func(n ast.Node) bool {
-			as, ok := n.(*ast.AssignStmt)
-			if !ok || len(as.Lhs) != 1 || len(as.Rhs) != 1 {
-				return true
-			}
-			sel, ok := as.Lhs[0].(*ast.SelectorExpr)
-			if !ok || sel.Sel.Name != "len" {
-				return true
-			}
-			if _, isOr := as.Rhs[0].(*ast.BinaryExpr); !isOr {
-				return true
-			}
-			env := &symEnv{info: info, vars: map[string]string{}}
-			for k := 0; k < 6; k++ {
-				env.vars[fmt.Sprintf("v%p[%d]", bufObj, k)] = fmt.Sprintf("b%d", k)
-			}
-			got = env.term(as.Rhs[0])
-			if got == "or(int(b2),shl(int(b3),8),shl(int(b4),16),shl(int(b5),24))" {
-				okLen = true
-			}
-			return true
-		})
-		c.check(okLen, "PFB-LENGTH", fname, "segment length = little-endian 32-bit value of header bytes 2..5", fd.Pos(), got, "the segment length is computed as "+got+", expected b2 | b3<<8 | b4<<16 | b5<<24")
-	}
+	c.pfbTables()
 
 	// ---- read errors returned unconditionally in the text and binary states; binary uses ReadFull
 	nRead := 0
@@ -401,11 +255,6 @@ func runC14(c *Ctx) {
 			}
 		}
 		c.check(okFill, "PFB-FILL", fname, "a nil error is returned only with the caller's buffer full", fd.Pos(), "the only `return n, nil` follows the `for len(b) > 0` loop", "buffer filling: "+why)
-	}
-	// ---- text state: at most min(len(b), remaining) bytes requested
-	if cl := labels[1]; cl != nil {
-		t := nodeString(c, cl)
-		c.check(strings.Contains(t, "> r.len {") && strings.Contains(t, "= int(r.len)"), "PFB-TEXT", fname, "a text read never asks for more than the remaining segment length", cl.Pos(), "k = min(len(b), r.len)", "the text state can read past the end of its segment into the next header")
 	}
 }
 
